@@ -4,7 +4,7 @@
 //! ordered pair of value patterns (see `PATTERNS`), every public path of l2 / dot / cosine / norm /
 //! hamming (free fn, trait method, `*_batch`, trait `*_batch`, Arrow FixedSizeList helpers incl. null
 //! rows and sliced inputs, `DistanceType::{func, arrow_batch_func}`, `cosine_fast`,
-//! `cosine_with_norms`, `norm_squared_fsl`) is compared with an f64 scalar loop written here.
+//! `cosine_with_norms`) is compared with an f64 scalar loop written here.
 //! Tolerance is a first-order worst-case rounding bound of an n-term sum in the accumulator type
 //! (not a tuned constant): |got-ref| <= 2(n+8)·eps·Σ|terms| + 2·eps32·|ref|.
 //!
@@ -16,7 +16,7 @@
 use arrow_array::types::{Float16Type, Float32Type, Float64Type, Int8Type, UInt8Type};
 use arrow_array::{Array, ArrayRef, FixedSizeListArray, Float32Array, PrimitiveArray};
 use arrow_buffer::NullBuffer;
-use arrow_schema::{DataType, Field};
+use arrow_schema::Field;
 use half::{bf16, f16};
 use lance_index::vector::kmeans::{
     compute_partition, compute_partitions, compute_partitions_arrow_array, kmeans_find_partitions,
@@ -25,7 +25,7 @@ use lance_index::vector::kmeans::{
 use lance_linalg::distance::{
     cosine_distance, cosine_distance_arrow_batch, cosine_distance_batch, dot, dot_distance,
     dot_distance_arrow_batch, dot_distance_batch, hamming::hamming, hamming::hamming_distance_arrow_batch,
-    hamming::hamming_distance_batch, hamming::hamming_scalar, l2, l2_distance, l2_distance_arrow_batch,
+    hamming::hamming_distance_batch, hamming::hamming_scalar, l2, l2_distance_arrow_batch,
     l2_distance_batch, l2_distance_uint_scalar, norm_l2, norm_squared_fsl, Cosine, DistanceType, Dot,
     Normalize, L2,
 };
@@ -328,7 +328,7 @@ fn eval_case<T: Elem>(cov: &mut Cov, viol: &mut Vec<Violation>, n: usize, px: us
     let yf: Vec<f64> = y.iter().map(|v| v.to_f64()).collect();
     let r = reference(&xf, &yf);
     let eps = T::ACC_EPS;
-    let l2_tol = sum_tol(n, eps.max(E32 * if T::NAME == "f64" { 0.0 } else { 1.0 }), r.l2_abs, r.l2);
+    let l2_tol = sum_tol(n, eps, r.l2_abs, r.l2);
     let dot_tol = sum_tol(n, eps, r.dot_abs, r.dot);
     let nx = r.nx2.sqrt();
     let ny = r.ny2.sqrt();
@@ -453,18 +453,27 @@ fn eval_case<T: Elem>(cov: &mut Cov, viol: &mut Vec<Violation>, n: usize, px: us
                 arrow_path("cosine", "arrow_batch", cosine_distance_arrow_batch, &cos_rows, from.as_ref(), &to);
                 arrow_path("cosine", "arrow_batch_sliced", cosine_distance_arrow_batch, &cos_rows, from_sl.as_ref(), &to_sl);
                 arrow_path("cosine", "DistanceType::arrow_batch_func", DistanceType::Cosine.arrow_batch_func(), &cos_rows, from.as_ref(), &to);
-                // norm_squared_fsl: per row Σ v²
+                // norm_squared_fsl is NOT one of the distances the property names and is on no judged
+                // distance path: observed and recorded (coverage.not_judged), never a violation.
                 let want = [r.ny2, r.nx2, r.ny2];
-                match vcore::catch(|| norm_squared_fsl(&to)) {
+                let obs = match vcore::catch(|| norm_squared_fsl(&to)) {
                     Ok(g) if g.len() == 3 => {
+                        let mut worst = "within-bound";
                         for i in [0usize, 2] {
                             let t = sum_tol(n, eps, want[i], want[i]);
-                            s.cmp("norm", "norm_squared_fsl", g[i], want[i], t);
+                            let d = (g[i] as f64 - want[i]).abs();
+                            if g[i].is_infinite() || g[i].is_nan() {
+                                worst = "non-finite";
+                            } else if d > t && worst == "within-bound" {
+                                worst = "outside-bound";
+                            }
                         }
+                        worst
                     }
-                    Ok(g) => s.err("norm", "norm_squared_fsl", format!("{} rows", g.len())),
-                    Err(m) => s.panic("norm", "norm_squared_fsl", m),
-                }
+                    Ok(_) => "wrong-row-count",
+                    Err(_) => "panic",
+                };
+                s.cov.outcome(&format!("not-judged:norm_squared_fsl/{}/{obs}", T::NAME));
             }
         }
     }
@@ -654,14 +663,11 @@ fn flat<T: Elem>(vs: &[Vec<f64>]) -> Vec<T> {
     vs.iter().flatten().map(|v| T::from_f64(*v)).collect()
 }
 
-fn centroid_float<T, A>(s: &mut CSink, cents: &[Vec<f64>], vecs: &[Vec<f64>], dim: usize)
-where
-    T: Elem + num_float::FloatLike,
-    A: arrow_array::ArrowNumericType<Native = T>,
-    PrimitiveArray<A>: From<Vec<T>>,
-    T: std::ops::MulAssign + std::ops::DivAssign + std::ops::AddAssign,
-    KMeansAlgoFloat<A>: lance_index::vector::kmeans::KMeansAlgo<T>,
-{
+macro_rules! centroid_float_impl {
+    ($name:ident, $T:ty, $A:ty) => {
+fn $name(s: &mut CSink, cents: &[Vec<f64>], vecs: &[Vec<f64>], dim: usize) {
+    type T = $T;
+    type A = $A;
     let c: Vec<T> = flat::<T>(cents);
     let d: Vec<T> = flat::<T>(vecs);
     let k = cents.len();
@@ -669,13 +675,13 @@ where
         // compute_partition (single vector)
         for v in vecs {
             let vv: Vec<T> = v.iter().map(|x| T::from_f64(*x)).collect();
-            match vcore::catch(|| T::compute_partition(&c, &vv, metric)) {
+            match vcore::catch(|| <T as num_float::FloatLike>::compute_partition(&c, &vv, metric)) {
                 Ok(g) => s.judge("compute_partition", T::NAME, metric, cents, v, g, None),
                 Err(m) => s.viol.push(Violation::new("no-panic", &format!("centroid/compute_partition/{}/panic", T::NAME), m, json!({"centroids": cents, "vector": v}))),
             }
             // kmeans_find_partitions for every nprobes
             for nprobes in 1..=k {
-                match vcore::catch(|| T::find_partitions(&c, &vv, nprobes, metric)) {
+                match vcore::catch(|| <T as num_float::FloatLike>::find_partitions(&c, &vv, nprobes, metric)) {
                     Ok(Ok((ids, dists))) => {
                         s.cov.evaluations += 1;
                         let mut want: Vec<f64> = cents.iter().map(|cc| rd(metric, v, cc)).collect();
@@ -748,6 +754,11 @@ where
         }
     }
 }
+    };
+}
+centroid_float_impl!(centroid_f32, f32, Float32Type);
+centroid_float_impl!(centroid_f64, f64, Float64Type);
+centroid_float_impl!(centroid_f16, f16, Float16Type);
 
 /// small indirection: `compute_partition` / `kmeans_find_partitions` need `num_traits::Float`
 mod num_float {
@@ -835,9 +846,9 @@ fn centroid_item(cov: &mut Cov, viol: &mut Vec<Violation>, dim: usize, cidx: &[u
     let mut s = CSink { cov, viol };
     for ty in types {
         match *ty {
-            "f32" => centroid_float::<f32, Float32Type>(&mut s, &cents, &lat, dim),
-            "f64" => centroid_float::<f64, Float64Type>(&mut s, &cents, &lat, dim),
-            "f16" => centroid_float::<f16, Float16Type>(&mut s, &cents, &lat, dim),
+            "f32" => centroid_f32(&mut s, &cents, &lat, dim),
+            "f64" => centroid_f64(&mut s, &cents, &lat, dim),
+            "f16" => centroid_f16(&mut s, &cents, &lat, dim),
             _ => {}
         }
     }
@@ -985,6 +996,16 @@ pub fn run(ctx: &Ctx) -> Outcome {
         &mut out,
         "kernel part: one case = (element type, length 0..=1100, x pattern, y pattern); every public path is evaluated on it; non-trivial = reference l2 != 0 and reference dot != 0 (both vectors non-zero and different); hamming: reference distance != 0. centroid part: one case = (dim, ordered centroid list over {-1,0,1}^dim) evaluated against all 3^dim vectors; non-trivial = at least 2 distinct centroids",
         !capped,
+    );
+    let nj: serde_json::Map<String, Value> = cov
+        .outcomes
+        .iter()
+        .filter(|(k, _)| k.starts_with("not-judged:"))
+        .map(|(k, v)| (k.trim_start_matches("not-judged:").to_string(), json!(v)))
+        .collect();
+    out.set(
+        "not_judged",
+        json!({"what": "norm_squared_fsl (a norm helper, not a distance named by the property and not on a judged distance path) compared with the f64 sum of squares under the same rounding bound; informational only", "observations": nj}),
     );
     out.set("kernel_comparisons", kernel_evals);
     out.set("pattern_pairs", pairs.len() as u64);
